@@ -20,8 +20,8 @@ def c18(tier):
         gcov.update(gcs.run(verdict, wd, tier, plans, vlib.seed()))
 
     plan = [
-        {'kind': 'sym', 'count': 150 if q else 6000, 'cfgs': 'gc' if q else 'gcall', 'shards': 1 if q else 12},
-        {'kind': 'sym', 'count': 350 if q else 14000, 'cfgs': 'basic', 'shards': 1 if q else 8},
+        {'kind': 'sym', 'count': 90 if q else 6000, 'cfgs': 'gc' if q else 'gcall', 'shards': 1 if q else 12},
+        {'kind': 'sym', 'count': 250 if q else 14000, 'cfgs': 'basic', 'shards': 1 if q else 8},
     ]
 
     def relevant(mm, sess, runs):
